@@ -5,7 +5,9 @@ R1  TLC exhaustive: Follow.tla = Replica.tla's file sets (sync / compaction / sn
     code is (FollowAlg.tla: applyNewLTXFiles / fillFollowGap / resume validation over TXID ranges), apply and sidecar
     publish step by step with Kill in between: NeverAhead, NoSkip, SidecarAfterApply, SidecarMonotone, Converges,
     NoStall, ResumeAccepted (the last three waived exactly where the hazard predicates of W1-W3 hold); witness
-    configurations without the waiver produce the counterexamples of W1 (quick) and W2 (thorough).
+    configurations without the waiver produce the counterexamples of W1 (quick) and W2 (thorough). A finding of W1-W3
+    that is no longer listed as known in known_findings.json is modelled as repaired (constant Fixes) and its invariant
+    is checked without waiver: nothing needs editing when a fix lands.
 R2  schedules: the witnesses (TLC counterexamples + the catalogue of DESIGN section 8), TLC behaviours of Follow.tla
     (simulate, seeded) translated to primary operations / published views / follower sessions, seeded random histories
     and poll timings (views switched between and in the middle of polls); kill points = every file-system-mutating
@@ -297,6 +299,26 @@ def kill_case(rnd, label, friendly, resumed, every, off):
 
 # ---------------------------------------------------------------------------------------------------------------
 
+def tla_set(xs):
+    return "{" + ", ".join('"%s"' % x for x in xs) + "}"
+
+
+def mc_cfg(nsync, clock, fine, fixes, invs=None, variant="asis"):
+    """Configuration of Follow.tla for the tree under test: a finding that is no longer listed as known is modelled as
+    repaired (Fixes) and its invariant is checked WITHOUT the hazard waiver; the spec/MC_Follow_*.cfg files on disk are
+    the pinned (nothing repaired) versions of the same configurations."""
+    if invs is None:
+        invs = ["NeverAhead", "NoSkip", "SidecarAfterApply", "Converges",
+                "NoStall" if "W2" in fixes else "NoStallH",
+                "ResumeAccepted" if "W1" in fixes else "ResumeAcceptedH",
+                "ResumeAfterKill" if "W3" in fixes else "ResumeAfterKillH"]
+        prop = "PROPERTY SidecarMonotone\n"
+    else:
+        prop = ""
+    return ("SPECIFICATION SpecF\nCONSTANTS NSync=%d MaxClock=%d RetentionEnabled=TRUE Fine=%s Variant=\"%s\" Fixes=%s\n"
+            "INVARIANTS %s\n%sCHECK_DEADLOCK FALSE\n" % (nsync, clock, "TRUE" if fine else "FALSE", variant, tla_set(fixes), " ".join(invs), prop))
+
+
 def run_driver(bins, wd, cases, timeout):
     inp, out, work = os.path.join(wd, "cases.json"), os.path.join(wd, "follow_trace.ndjson"), os.path.join(wd, "work")
     os.makedirs(work, exist_ok=True)
@@ -313,7 +335,7 @@ def run_driver(bins, wd, cases, timeout):
 _DIVERGE = re.compile(r'<<"DIVERGE", "(\w+)", (-?\d+), (-?\d+), (-?\d+)>>')
 
 
-def judge(rep, wd, nrecs):
+def judge(rep, wd, nrecs, fixes):
     r = vlib.run_tlc("FollowObs", "FollowObs.cfg", wd, workers=1, timeout=1500)
     vlib.tlc_expect_ok(r, "FollowObs")
     if not r.ok:
@@ -324,7 +346,8 @@ def judge(rep, wd, nrecs):
     bad = {}
     for name, l, t, i in vlib.verdicts(r.out):
         bad.setdefault(l, []).append(name)
-    r2 = vlib.run_tlc("Trace_Follow", "Trace_Follow.cfg", wd, workers=1, timeout=1500)
+    r2 = vlib.run_tlc("Trace_Follow", "Trace_Follow_run.cfg", wd, workers=1, timeout=1500, files={
+        "Trace_Follow_run.cfg": "SPECIFICATION Spec\nCONSTANTS Variant=\"asis\" Fixes=%s\nINVARIANTS Polls Resume\nCHECK_DEADLOCK FALSE\n" % tla_set(fixes)})
     rep.add_tlc("Trace_Follow", r2, "binding: observed polls / resume decisions = FollowAlg.tla")
     div = {}
     if r2.error and not r2.ok:
@@ -365,6 +388,9 @@ def main():
     try:
         bins = {"followdrv": vlib.go_build("./cmd/followdrv", "followdrv")[0], "killsup": vlib.go_build("./cmd/killsup", "killsup")[0]}
         cases = []
+        known = {f["id"]: f for f in vlib.known_findings(PROP) if f.get("status") == "known"}
+        fixes = sorted({"W1", "W2", "W3"} - set(known))     # no longer listed as known = repaired in the tree under test
+        rep.cov["modelled_as_repaired"] = fixes
 
         def add(c, kind):
             c["id"] = len(cases)
@@ -383,29 +409,34 @@ def main():
             cases[0]["cfg"] = cfg
         else:
             # ---- R1 in the background (its own scratch directory), R2/R3 meanwhile
-            mcs = [("MC_Follow_q.cfg", "NSync=3 MaxClock=1, apply / publish step by step with Kill in between; waivers W1-W3")]
+            mcs = [("MC_Follow_q", mc_cfg(3, 1, True, fixes), "NSync=3 MaxClock=1, apply / publish step by step with Kill in between; Fixes=%s, waivers for the rest of W1-W3" % fixes)]
             if thorough:
-                mcs += [("MC_Follow_t.cfg", "NSync=3 MaxClock=2, step by step"),
-                        ("MC_Follow_c4.cfg", "NSync=4 MaxClock=2, polls atomic (range level)"),
-                        ("MC_Follow_fixed.cfg", "candidate repairs: every invariant without waiver")]
+                mcs += [("MC_Follow_t", mc_cfg(3, 2, True, fixes), "NSync=3 MaxClock=2, step by step; Fixes=%s" % fixes),
+                        ("MC_Follow_c4", mc_cfg(4, 2, False, fixes), "NSync=4 MaxClock=2, polls atomic (range level); Fixes=%s" % fixes),
+                        ("MC_Follow_fixed", mc_cfg(3, 1, True, ["W1", "W2", "W3"]), "all candidate repairs: every invariant without waiver")]
 
             def background():
                 try:
                     mwd = os.path.join(wd, "mc")
                     os.makedirs(mwd, exist_ok=True)
-                    for cfg, what in mcs:
-                        r = vlib.run_tlc("Follow", cfg, mwd, workers=max(4, vlib.NCPU // 2), timeout=3000)
-                        mc_results.append((cfg, what, r))
+                    for name, text, what in mcs:
+                        r = vlib.run_tlc("Follow", name + "_run.cfg", mwd, workers=max(4, vlib.NCPU // 2), timeout=3000,
+                                         files={name + "_run.cfg": text})
+                        mc_results.append((name, what, r))
                 except Exception as e:          # reported by the main thread
                     mc_err.append(e)
             th = threading.Thread(target=background)
             th.start()
             # ---- witnesses: counterexamples of the un-waived invariants, replayed on the real code
-            wit = [("MC_Follow_w1.cfg", "ResumeAccepted", "W1")] + ([("MC_Follow_w2.cfg", "NoStall", "W2")] if thorough else [])
-            for cfg, inv, sig in wit:
-                r = vlib.run_tlc("Follow", cfg, wd, workers=max(4, vlib.NCPU // 2), timeout=1500)
-                vlib.tlc_expect_ok(r, cfg)
-                rep.add_tlc(cfg, r, "witness search: %s without the waiver for %s" % (inv, sig))
+            wit = [("MC_Follow_w1", mc_cfg(3, 1, False, fixes, ["ResumeAccepted"]), "ResumeAccepted", "W1")]
+            if thorough:
+                wit.append(("MC_Follow_w2", mc_cfg(4, 2, False, fixes, ["NoStall"]), "NoStall", "W2"))
+            for name, text, inv, sig in wit:
+                if sig in fixes:
+                    continue                    # repaired: the un-waived invariant is part of the exhaustive configurations
+                r = vlib.run_tlc("Follow", name + "_run.cfg", wd, workers=max(4, vlib.NCPU // 2), timeout=1500, files={name + "_run.cfg": text})
+                vlib.tlc_expect_ok(r, name)
+                rep.add_tlc(name, r, "witness search: %s without the waiver for %s" % (inv, sig))
                 if inv in r.violated:
                     c = model_to_case(error_trace_steps(r.out), rnd, "witness:%s" % sig)
                     if c:
@@ -413,11 +444,12 @@ def main():
                         rep.notes.append("Follow.tla: %s is violated (hazard %s) after %d steps; the counterexample is replayed on the real code" % (
                             inv, sig, len(error_trace_steps(r.out)) - 1))
                 else:
-                    rep.notes.append("Follow.tla: no counterexample of %s in %s" % (inv, cfg))
+                    rep.notes.append("Follow.tla: no counterexample of %s in %s" % (inv, name))
             for c in catalogue():
                 add(c, "catalogue")
             nsim, nrand, nkill, every = (50, 50, 6, 5) if not thorough else (1200, 1500, 36, 1)
-            rs, ss = vlib.tlc_simulate("Follow", "Sim_Follow.cfg", wd, nsim, 45, seed)
+            rs, ss = vlib.tlc_simulate("Follow", "Sim_Follow_run.cfg", wd, nsim, 45, seed, files={
+                "Sim_Follow_run.cfg": "SPECIFICATION SpecF\nCONSTANTS NSync=6 MaxClock=4 RetentionEnabled=TRUE Fine=FALSE Variant=\"asis\" Fixes=%s\nCHECK_DEADLOCK FALSE\n" % tla_set(fixes)})
             rep.cov["transitions"] += rs.generated
             seen = set()
             for s in ss:
@@ -444,10 +476,9 @@ def main():
         if dead:
             raise vlib.MachineryError("follower child died / timed out in %d sessions, e.g. case %d (%s) session %d: %s" % (
                 len(dead), dead[0]["t"], dead[0]["label"], dead[0]["i"], dead[0]["errMsg"][:200]))
-        bad, div = judge(rep, wd, len(recs))
+        bad, div = judge(rep, wd, len(recs), fixes)
         rep.cov["phase_s"] = {"replay_on_real_code": round(t1 - t0, 1), "judge": round(time.time() - t1, 1)}
         by_id = {c["id"]: c for c in cases}
-        known = {f["id"]: f for f in vlib.known_findings(PROP) if f.get("status") == "known"}
         # ---- verdicts
         nk = {}
         for l, names in sorted(bad.items()):
